@@ -119,8 +119,16 @@ def inv02_def(stations, bases, vehicles):
     )
 
 
+def ids_ok(sim):
+    """map key = entity id, for the four entity maps (part of Inv08, kept revealed: it is what lets a point update
+    keyed by `entity.id` be read as an update of the looked-up key)"""
+    i = bound(StrT, "i_ids")
+    return And(*[forall([i], Implies(getattr(sim, e).has(i), getattr(sim, e).get(i).val().id == i))
+                 for e in ("vehicles", "stations", "bases", "requests")])
+
+
 def wf(sim):
-    return And(inv08(sim), wf_bases(sim))
+    return And(inv08(sim), ids_ok(sim), wf_bases(sim))
 
 
 # ---- resource updates on the station / base maps
@@ -271,6 +279,7 @@ def register(R):
     s = R.spec(VS + "vehicle_state.py::VehicleStateABC.apply_new_vehicle_state", arg_types={"new_state": VST()})
     s.opaque = True
     s.requires("inv", lambda a: inv08(a.sim, ["vehicle"]))
+    s.requires("ids", lambda a: ids_ok(a.sim))
     s.ensures("sets_state", lambda a, r: And(Or(ok(r), failed(r)),
               Implies(Not(a.sim.vehicles.has(a.vehicle_id)), failed(r)),
               Implies(ok(r), And(a.sim.vehicles.has(a.vehicle_id),
@@ -335,17 +344,29 @@ def register(R):
     s.ensures("no_diversion", lambda a, r: And(r[0].is_none(), Iff(r[1].is_some(), a.self.route.len() == 0)), ("C03",))
 
     # ------------------------------------------------------------ enter contracts
+    GROUP_PROPS = {"resources": ("C02", "C09"), "location": ("C07",), "access": ("C10",), "record": ("C17",)}
+
     def enter_spec(cname, allowed, expect, extra_props=()):
-        """allowed(a, n): the activity the vehicle ends up in; expect(a, s2, n): resources taken, everything else equal"""
+        """allowed(a, n): the activity the vehicle ends up in; expect(a, s2, n) -> {group: condition}:
+        resources taken and everything else equal (C02/C09), location (C07), access (C10), record (C17)"""
         s = R.spec(key(cname, "enter"))
         s.opaque = True
         s.requires("wf", WF_PRE)
 
-        def post(a, r):
-            s2 = r[1].val()
-            n = s2.vehicles.get(a.self.vehicle_id).val().vehicle_state
-            return Implies(ok(r), And(a.sim.vehicles.has(a.self.vehicle_id), allowed(a, n), expect(a, s2, n)))
-        s.ensures("acquires_exactly", post, ("C02", "C07", "C09", "C10", "C17") + tuple(extra_props))
+        def mk(group):
+            def post(a, r):
+                s2 = r[1].val()
+                n = s2.vehicles.get(a.self.vehicle_id).val().vehicle_state
+                e = expect(a, s2, n)
+                if not isinstance(e, dict):
+                    e = {"resources": e}
+                conds = [e.get(group, True)]
+                if group == "resources":
+                    conds = [a.sim.vehicles.has(a.self.vehicle_id), allowed(a, n)] + conds
+                return Implies(ok(r), And(*conds))
+            return post
+        for g, props in GROUP_PROPS.items():
+            s.ensures(f"enter_{g}", mk(g), props + (tuple(extra_props) if g == "resources" else ()))
         s.ensures("wf_kept", WF_KEPT, ("C08",))
         s.no_raise(("C02",))
         if cname in ("ReserveBase", "ChargingBase"):
@@ -362,56 +383,56 @@ def register(R):
         enter_spec(cname, (lambda cname: lambda a, n: same_up_to_instance(n, a.self, cname))(cname), only_vehicle_state)
 
     enter_spec("Repositioning", lambda a, n: same_up_to_instance(n, a.self, "Repositioning"),
-               lambda a, s2, n: And(only_vehicle_state(a, s2, n), route_ok(a.self.route, geoid(veh(a)))))
+               lambda a, s2, n: {"resources": only_vehicle_state(a, s2, n), "location": route_ok(a.self.route, geoid(veh(a)))})
 
     def cs_enter_expect(a, s2, n, sid=None, cid=None):
         nn = n.as_a("ChargingStation")
         stn = a.sim.stations.get(nn.station_id).val()
-        return And(a.sim.stations.has(nn.station_id),
-                   geoid(veh(a)) == geoid(stn),                                  # C07
-                   grants(stn.membership, veh(a).membership),                    # C10
-                   stn.state.has(nn.charger_id),
-                   stn.state.get(nn.charger_id).val().available_chargers > 0,
-                   s2.stations == dec_avail(a.sim.stations, nn.station_id, nn.charger_id),
-                   s2.vehicles == veh_with_state(a.sim, a.self.vehicle_id, n),
-                   same_except(s2, a.sim, ["vehicles", "stations"]))
+        return {"location": geoid(veh(a)) == geoid(stn),
+                "access": grants(stn.membership, veh(a).membership),
+                "resources": And(a.sim.stations.has(nn.station_id),
+                                 stn.state.has(nn.charger_id),
+                                 stn.state.get(nn.charger_id).val().available_chargers > 0,
+                                 s2.stations == dec_avail(a.sim.stations, nn.station_id, nn.charger_id),
+                                 s2.vehicles == veh_with_state(a.sim, a.self.vehicle_id, n),
+                                 same_except(s2, a.sim, ["vehicles", "stations"]))}
     enter_spec("ChargingStation", lambda a, n: same_up_to_instance(n, a.self, "ChargingStation"), cs_enter_expect)
 
     def cq_enter_expect(a, s2, n):
         stn = a.sim.stations.get(a.self.station_id).val()
-        return And(a.sim.stations.has(a.self.station_id),
-                   geoid(veh(a)) == geoid(stn),
-                   grants(stn.membership, veh(a).membership),
-                   s2.stations == inc_enq(a.sim.stations, a.self.station_id, a.self.charger_id),
-                   s2.vehicles == veh_with_state(a.sim, a.self.vehicle_id, n),
-                   same_except(s2, a.sim, ["vehicles", "stations"]))
+        return {"location": geoid(veh(a)) == geoid(stn),
+                "access": grants(stn.membership, veh(a).membership),
+                "resources": And(a.sim.stations.has(a.self.station_id),
+                                 s2.stations == inc_enq(a.sim.stations, a.self.station_id, a.self.charger_id),
+                                 s2.vehicles == veh_with_state(a.sim, a.self.vehicle_id, n),
+                                 same_except(s2, a.sim, ["vehicles", "stations"]))}
     enter_spec("ChargeQueueing", lambda a, n: same_up_to_instance(n, a.self, "ChargeQueueing"), cq_enter_expect)
 
     def rb_enter_expect(a, s2, n):
         base = a.sim.bases.get(a.self.base_id).val()
-        return And(a.sim.bases.has(a.self.base_id),
-                   geoid(veh(a)) == geoid(base),
-                   grants(base.membership, veh(a).membership),
-                   base.available_stalls >= 1,
-                   s2.bases == stall(a.sim.bases, a.self.base_id, -1),
-                   s2.vehicles == veh_with_state(a.sim, a.self.vehicle_id, n),
-                   same_except(s2, a.sim, ["vehicles", "bases"]))
+        return {"location": geoid(veh(a)) == geoid(base),
+                "access": grants(base.membership, veh(a).membership),
+                "resources": And(a.sim.bases.has(a.self.base_id),
+                                 base.available_stalls >= 1,
+                                 s2.bases == stall(a.sim.bases, a.self.base_id, -1),
+                                 s2.vehicles == veh_with_state(a.sim, a.self.vehicle_id, n),
+                                 same_except(s2, a.sim, ["vehicles", "bases"]))}
     enter_spec("ReserveBase", lambda a, n: same_up_to_instance(n, a.self, "ReserveBase"), rb_enter_expect)
 
     def cb_enter_expect(a, s2, n):
         base = a.sim.bases.get(a.self.base_id).val()
         sid = base.station_id.val()
         stn = a.sim.stations.get(sid).val()
-        return And(a.sim.bases.has(a.self.base_id), base.station_id.is_some(), a.sim.stations.has(sid),
-                   geoid(veh(a)) == geoid(base),                                 # C07 (F3)
-                   grants(base.membership, veh(a).membership),
-                   base.available_stalls >= 1,
-                   stn.state.has(a.self.charger_id),
-                   stn.state.get(a.self.charger_id).val().available_chargers > 0,
-                   s2.bases == stall(a.sim.bases, a.self.base_id, -1),
-                   s2.stations == dec_avail(a.sim.stations, sid, a.self.charger_id),
-                   s2.vehicles == veh_with_state(a.sim, a.self.vehicle_id, n),
-                   same_except(s2, a.sim, ["vehicles", "bases", "stations"]))
+        return {"location": geoid(veh(a)) == geoid(base),                 # C07 (F3)
+                "access": grants(base.membership, veh(a).membership),
+                "resources": And(a.sim.bases.has(a.self.base_id), base.station_id.is_some(), a.sim.stations.has(sid),
+                                 base.available_stalls >= 1,
+                                 stn.state.has(a.self.charger_id),
+                                 stn.state.get(a.self.charger_id).val().available_chargers > 0,
+                                 s2.bases == stall(a.sim.bases, a.self.base_id, -1),
+                                 s2.stations == dec_avail(a.sim.stations, sid, a.self.charger_id),
+                                 s2.vehicles == veh_with_state(a.sim, a.self.vehicle_id, n),
+                                 same_except(s2, a.sim, ["vehicles", "bases", "stations"]))}
     enter_spec("ChargingBase", lambda a, n: same_up_to_instance(n, a.self, "ChargingBase"), cb_enter_expect)
 
     def ds_allowed(a, n):
@@ -422,27 +443,30 @@ def register(R):
 
     def ds_enter_expect(a, s2, n):
         stn = a.sim.stations.get(a.self.station_id).val()
-        return And(a.sim.stations.has(a.self.station_id),
-                   grants(stn.membership, veh(a).membership),
-                   Implies(n.is_a("DispatchStation"), And(route_ok(a.self.route, geoid(veh(a)), geoid(stn)),
-                                                          only_vehicle_state(a, s2, n))),
-                   Implies(n.is_a("ChargingStation"), cs_enter_expect(a, s2, n)))
+        cs = cs_enter_expect(a, s2, n)
+        return {"access": grants(stn.membership, veh(a).membership),
+                "location": And(Implies(n.is_a("DispatchStation"), route_ok(a.self.route, geoid(veh(a)), geoid(stn))),
+                                Implies(n.is_a("ChargingStation"), cs["location"])),
+                "resources": And(a.sim.stations.has(a.self.station_id),
+                                 Implies(n.is_a("DispatchStation"), only_vehicle_state(a, s2, n)),
+                                 Implies(n.is_a("ChargingStation"), cs["resources"]))}
     enter_spec("DispatchStation", ds_allowed, ds_enter_expect)
 
     def db_enter_expect(a, s2, n):
         base = a.sim.bases.get(a.self.base_id).val()
-        return And(a.sim.bases.has(a.self.base_id),
-                   grants(base.membership, veh(a).membership),
-                   route_ok(a.self.route, geoid(veh(a)), geoid(base)),
-                   only_vehicle_state(a, s2, n))
+        return {"access": grants(base.membership, veh(a).membership),
+                "location": route_ok(a.self.route, geoid(veh(a)), geoid(base)),
+                "resources": And(a.sim.bases.has(a.self.base_id), only_vehicle_state(a, s2, n))}
     enter_spec("DispatchBase", lambda a, n: same_up_to_instance(n, a.self, "DispatchBase"), db_enter_expect)
 
     def dt_enter_expect(a, s2, n):
         req = a.sim.requests.get(a.self.request_id).val()
-        return And(a.sim.requests.has(a.self.request_id),
-                   grants(req.membership, veh(a).membership),
-                   route_ok(a.self.route, geoid(veh(a)), geoid(req)),
-                   s2.requests == set_record(a.sim.requests, a.self.request_id, a.self.vehicle_id, a.sim.sim_time),
-                   s2.vehicles == veh_with_state(a.sim, a.self.vehicle_id, n),
-                   same_except(s2, a.sim, ["vehicles", "requests"]))
+        rec = s2.requests.get(a.self.request_id).val()
+        return {"access": grants(req.membership, veh(a).membership),
+                "location": route_ok(a.self.route, geoid(veh(a)), geoid(req)),
+                "record": And(s2.requests.has(a.self.request_id), rec.dispatched_vehicle == some(a.self.vehicle_id)),
+                "resources": And(a.sim.requests.has(a.self.request_id),
+                                 s2.requests == set_record(a.sim.requests, a.self.request_id, a.self.vehicle_id, a.sim.sim_time),
+                                 s2.vehicles == veh_with_state(a.sim, a.self.vehicle_id, n),
+                                 same_except(s2, a.sim, ["vehicles", "requests"]))}
     enter_spec("DispatchTrip", lambda a, n: same_up_to_instance(n, a.self, "DispatchTrip"), dt_enter_expect)
